@@ -27,6 +27,7 @@ OPS = [
     (r"to_le_bytes", "to_be_bytes"), (r"to_be_bytes", "to_le_bytes"), (r"LittleEndian", "BigEndian"), (r"BigEndian", "LittleEndian"),
     (r"from_le_slice", "from_be_slice"), (r"from_be_slice", "from_le_slice"),
     (r"\b0x([0-9a-fA-F]{2,8})\b", "HEXPLUS1"), (r"(?<![\w.])([1-9][0-9]{0,4})\b(?![\w.])", "DECPLUS1"),
+    (r"\.\.=", ".."), (r"(?<![.=])\.\.(?![.=])(?=[\w(])", "..="), (r"\.min\(", ".max("), (r"\.max\(", ".min("), (r"\[0\]", "[1]"), (r"\[1\]", "[0]"),
     (r"\.rev\(\)", ""), (r"\bis_some\(\)", "is_none()"), (r"\bis_none\(\)", "is_some()"), (r"\bis_empty\(\)", "len() == 1"),
 ]
 
@@ -42,7 +43,8 @@ def file_props():
         for f in p["anchors"]["files"]:
             m.setdefault(f, []).append(p["id"])
     # helpers the anchored code calls
-    extra = {"src/traits/varint.rs": ["C01", "C02", "C03", "C10", "C12", "C17"], "src/utils/mod.rs": ["C18", "C09"], "src/hash/digest_utils.rs": ["C05", "C13"], "src/chainparams/mod.rs": ["C07"], "src/encryption/mod.rs": ["C20", "C11"], "src/keypair/public_key.rs": ["C07", "C09"], "src/keypair/private_key.rs": ["C07", "C05"]}
+    extra = {"src/keypair/private_key.rs": ["C07", "C05", "C11", "C12", "C08"], "src/keypair/public_key.rs": ["C07", "C09", "C11", "C12", "C08", "C19"], "src/script/mod.rs": ["C02", "C17", "C10", "C14"], "src/script/op_codes.rs": ["C02", "C14", "C17", "C18"], "src/signature/mod.rs": ["C06", "C12", "C19"], "src/transaction/sighash.rs": ["C03", "C04", "C10", "C15", "C06"],
+             "src/traits/varint.rs": ["C01", "C02", "C03", "C10", "C12", "C17"], "src/utils/mod.rs": ["C18", "C09"], "src/hash/digest_utils.rs": ["C05", "C13"], "src/chainparams/mod.rs": ["C07"], "src/encryption/mod.rs": ["C20", "C11"], "src/keypair/public_key.rs": ["C07", "C09"], "src/keypair/private_key.rs": ["C07", "C05"]}
     for f, ps in extra.items():
         for p in ps:
             if p not in m.setdefault(f, []):
@@ -163,6 +165,11 @@ def main():
     fmap = file_props()
     files = files or sorted(fmap)
     cands = candidates(files, mpf)
+    if os.path.exists(OUT):
+        seen0 = {(r["file"], r["line"], r["op"], r["new"]) for r in json.load(open(OUT))}
+        # operator indices shifted when operators were added: compare on (file, line, new text) only
+        seen1 = {(a, b, d) for (a, b, c, d) in seen0}
+        cands = [c for c in cands if (c["file"], c["line"], c["new"]) not in seen1]
     print("%d mutants over %d files" % (len(cands), len(files)), flush=True)
     q = queue.Queue()
     for c in cands:
